@@ -30,6 +30,8 @@ def run(ctx):
     ev.cov["tlc_states"] = r.distinct
     cmds, meta = [], []
     for fpath in sorted(glob.glob(os.path.join(gdir, "*.json"))):
+        if os.path.basename(fpath).startswith("state_"):
+            continue
         d = json.load(open(fpath))
         pls = sorted(d["placements"], key=lambda p: (p["doff"], p["key"], p["iv"], p["hdr"], p["tag"]))
         if ctx.quick:      # the seed picks which half of the sweep a quick run takes (aux placements all)
@@ -101,6 +103,51 @@ def run(ctx):
         ev.cov["functions"].append("bashHash")
     except (FileNotFoundError, vlib.BuildError) as e:
         ev.cov["bash_overlap"] = "not available: %s" % str(e)[:100]
+    # ---- buffers that may overlap the state object (key of *Start, tag of StepG / StepG2): second rule group of Overlap.tla
+    scmds = []
+    for fpath in sorted(glob.glob(os.path.join(gdir, "state_*.json"))):
+        d = json.load(open(fpath))
+        for p in sorted(d["placements"], key=lambda p: (p["pos"], p["klen"], p["len"])):
+            scmds.append("ovstate f=%s kind=%s pos=%s klen=%d len=%d\n" % (d["f"], d["kind"], p["pos"], p["klen"], p["len"]))
+    # the sweep rule: every offset at which the buffer shares an octet with the state (keep() asked from the implementation)
+    kq = "".join("ovstate f=%s kind=keep\n" % json.load(open(f))["f"] for f in sorted(glob.glob(os.path.join(gdir, "state_*.json"))))
+    rc, kout, _ = vlib.run_harness(drv, ["ovstate"], stdin=kq.encode(), timeout=60)
+    keeps = {}
+    for l in kout.splitlines():
+        if l.strip().endswith("}"):
+            k = json.loads(l); keeps[k["f"]] = (k["keep"], k["taglen"])
+    for fpath in sorted(glob.glob(os.path.join(gdir, "state_*.json"))):
+        d = json.load(open(fpath))
+        if d["f"] not in keeps:
+            continue
+        keep, tl = keeps[d["f"]]
+        blen = d["sweep"]["klen"] if d["kind"] == "start" else tl
+        offs = list(range(-(blen - 1), keep))
+        if ctx.quick:       # quick: a seeded third of the sweep plus the neighbourhood of the ends
+            offs = [o for o in offs if (o + ctx.seed) % 3 == 0 or o <= -(blen - 3) or abs(o) <= 2 or o >= keep - 3 or abs(o - (keep - blen)) <= 2]
+        for o in offs:
+            scmds.append("ovstate f=%s kind=%s off=%d klen=%d len=%d\n" % (d["f"], d["kind"], o, d["sweep"]["klen"], d["sweep"]["len"]))
+    sout = ctx.path("ovstate.ndjson")
+    rc, _, err = vlib.run_harness(drv, ["ovstate"], stdin="".join(scmds).encode(), out_path=sout, env={"VERIF_SEED": ctx.seed}, timeout=900)
+    srows = [json.loads(l) for l in open(sout) if l.strip().endswith("}")]
+    if rc != 0:
+        nxt = scmds[len(srows)].strip() if len(srows) < len(scmds) else "?"
+        ctx.violation("state-crash:" + nxt.replace(" ", "_"), "crash / sanitizer report with a buffer overlapping the state: %s\n%s" % (nxt, err[-1500:]),
+                      {"command": nxt, "stderr": err[-4000:]})
+    ns, bads, rs = vlib.validate_lines(ctx, "Trace_Belt", srows, timeout=1500)
+    if ns < len(srows):
+        ctx.note_inconclusive("Trace_Belt evaluated %d of %d state-overlap lines (rc=%s)" % (ns, len(srows), rs.rc))
+    for i in bads:
+        x = srows[i - 1]
+        ctx.violation("state:%s:%s:%s" % (x["f"], x["kind"], x["pos"] if x["pos"] != "sweep" else "off%d" % x["off"]),
+                      "%s with the %s %s the state (%s) differs from the disjoint-buffer result"
+                      % (x["f"], "key inside / straddling" if x["kind"] == "start" else "tag buffer inside / straddling", "of *Start" if x["kind"] == "start" else "of StepG", "%s, offset %d" % (x["pos"], x["off"])),
+                      {"command": scmds[i - 1].strip(), "line": x})
+    ev.cov["evaluations"] += ns
+    ev.cov["traces_validated_against_impl"] += ns
+    ev.cov["state_overlap_lines"] = ns
+    ev.cov["distinct_nontrivial"] += len(set((x["f"], x["pos"], x["off"], len(x.get("key", [])), len(x.get("in", []))) for x in srows))
+    ev.cov["functions"] += sorted(set("state:" + x["f"] for x in srows))
     # ---- DER: encoders / decoders whose header lets val (and len) overlap der, through the codec driver
     try:
         cdrv = vlib.harness("drv_codec", ["drv_codec.c"], "asan")
